@@ -20,7 +20,7 @@ def walk(e):
     if not isinstance(e, dict):
         return
     yield e
-    for key in ("a", "f", "part", "fill", "d"):
+    for key in ("a", "f", "part", "fill", "d", "vs"):
         for x in e.get(key, []) or []:
             yield from walk(x)
     for o in e.get("ord", []) or []:
@@ -72,6 +72,8 @@ def expr_tags(e, vis_ids=None):
 
 def move_exprs(m):
     v = m["v"]
+    if v == "equiv":
+        return [x for mm in list(m["lhs"]) + list(m["rhs"]) for x in move_exprs(mm)]
     if v in ("mutate", "summarize"):
         return [kv["e"] for kv in m["kv"]]
     if v == "filter":
@@ -91,6 +93,8 @@ def move_tags(m, in_obs=None):
     names = list(in_obs["names"]) if in_obs else None
     for e in move_exprs(m):
         tags |= expr_tags(e, vis_ids)
+    if v == "equiv":
+        tags.add("equiv:" + m["kind"])
     if v == "resolve":
         tags.add("op:" + m["op"])
         for a in m["args"]:
@@ -155,7 +159,7 @@ def behaviour_tags(fail, beh_obs):
 
 
 def signature(prop, fail, last, hist):
-    struct = ("v:", "op:" if "v:resolve" in last else "v:", "mutate:", "summarize:", "select:", "slice:", "expr:", "agg:", "win:", "ref:", "join:", "union:", "alias:", "in:")
+    struct = ("v:", "equiv:", "op:" if "v:resolve" in last else "v:", "mutate:", "summarize:", "select:", "slice:", "expr:", "agg:", "win:", "ref:", "join:", "union:", "alias:", "in:")
     core = dict(p=prop, c=fail["clause"], b=fail["backend"], last=sorted(t for t in last if t.startswith(struct)),
                 hv=sorted(x for x in hist if x.startswith("h:v:")))
     if fail.get("exc"):
